@@ -162,6 +162,33 @@ func shadowProgram(r *rand.Rand) *gen.Program {
 	}
 	// an inner declaration of name with a type different from the outer one, and a use of it
 	inner := func(name string, k int) []gen.Stmt {
+		// the outer variable is still the one meant before the declaration line (read and assigned)
+		var pre []gen.Stmt
+		if name == "v" {
+			pre = []gen.Stmt{gen.Assign{Target: v, Val: bin("+", v, nl(1), tNum)}, printCall(sl("before"), bin("*", v, nl(2), tNum))}
+		} else {
+			pre = []gen.Stmt{gen.Assign{Target: w, Val: bin("+", w, sl("+"), tStr)}, printCall(sl("before"), bin("+", w, sl("?"), tStr))}
+		}
+		return append(pre, innerDecl(name, k+r.Intn(2)*4)...)
+	}
+	_ = inner
+	return shadowBody(r, v, w, inner, after)
+}
+
+func innerDecl(name string, k int) []gen.Stmt {
+	{
+		switch k % 8 {
+		case 4: // typed declarations only
+			return []gen.Stmt{gen.Decl{Name: name, T: tArrN, Typed: true}, printCall(sl("inner"), vr(name, tArrN), call("len", tNum, toAny(vr(name, tArrN))))}
+		case 5:
+			return []gen.Stmt{gen.Decl{Name: name, T: tBool, Typed: true}, printCall(sl("inner"), gen.Unary{Op: "!", X: vr(name, tBool)})}
+		case 6:
+			return []gen.Stmt{gen.Decl{Name: name, T: tMapN, Typed: true}, gen.Assign{Target: gen.Dot{X: vr(name, tMapN), Key: "k", T: tNum}, Val: nl(6)}, printCall(sl("inner"), vr(name, tMapN))}
+		case 7:
+			return []gen.Stmt{gen.Decl{Name: name, T: tAny, Typed: true}, printCall(sl("inner"), vr(name, tAny))}
+		}
+	}
+	{
 		switch k % 4 {
 		case 0:
 			return []gen.Stmt{gen.Decl{Name: name, T: tArrN, Init: arrLit(tArrN, nl(7), nl(8))}, printCall(sl("inner"), vr(name, tArrN), call("len", tNum, toAny(vr(name, tArrN))))}
@@ -173,13 +200,17 @@ func shadowProgram(r *rand.Rand) *gen.Program {
 			return []gen.Stmt{gen.Decl{Name: name, T: tAny, Typed: true}, gen.Assign{Target: vr(name, tAny), Val: toAny(sl("any"))}, printCall(sl("inner"), vr(name, tAny))}
 		}
 	}
+}
+
+func shadowBody(r *rand.Rand, v, w gen.VarRef, inner func(string, int) []gen.Stmt, after func(string) gen.Stmt) *gen.Program {
+	bin := func(op string, l, rr gen.Expr, t *gen.Type) gen.Expr { return gen.Binary{Op: op, L: l, R: rr, T: t} }
 	cond := func(k int) gen.Expr { return bin("==", vr("sel", tNum), nl(float64(k)), tBool) }
 	ss := []gen.Stmt{
-		gen.FuncDef{Name: "shadowfn", Ret: tNum, Params: []gen.Param{{Name: "p", T: tNum}}, Body: append(append([]gen.Stmt{}, inner("v", r.Intn(4))...),
-			gen.If{Conds: []gen.Expr{bin(">", vr("p", tNum), nl(0), tBool)}, Blocks: [][]gen.Stmt{append(inner("w", r.Intn(4)), gen.Return{Val: bin("+", vr("p", tNum), nl(1), tNum)})}, Else: append(inner("w", r.Intn(4)), gen.Return{Val: nl(0)})})},
 		gen.Decl{Name: "v", T: tNum, Init: nl(float64(1 + r.Intn(5)))},
 		gen.Decl{Name: "w", T: tStr, Init: sl("outer")},
 		gen.Decl{Name: "sel", T: tNum, Init: nl(0)},
+		gen.FuncDef{Name: "shadowfn", Ret: tNum, Params: []gen.Param{{Name: "p", T: tNum}}, Body: append(append([]gen.Stmt{}, inner("v", r.Intn(4))...),
+			gen.If{Conds: []gen.Expr{bin(">", vr("p", tNum), nl(0), tBool)}, Blocks: [][]gen.Stmt{append(inner("w", r.Intn(4)), gen.Return{Val: bin("+", vr("p", tNum), nl(1), tNum)})}, Else: append(inner("w", r.Intn(4)), gen.Return{Val: nl(0)})})},
 	}
 	nsel := 4
 	body := []gen.Stmt{
@@ -280,6 +311,7 @@ func loopStateProgram(r *rand.Rand) *gen.Program {
 		printCall(sl("sum"), call("sum", tNum, nl(d+2))),
 		gen.CallStmt{C: call("each", gen.TNone, arrLit(tArrN, nl(1), nl(2), nl(3)))},
 		gen.CallStmt{C: call("chars", gen.TNone, sl("aé🌍"))},
+		gen.CallStmt{C: call("chars", gen.TNone, sl("x\ufffdy\ufffd"))},
 		// loops left by break
 		gen.Decl{Name: "i", T: tNum, Init: nl(10)},
 		gen.Decl{Name: "k", T: tStr, Init: sl("outer k")},
